@@ -312,7 +312,8 @@ def run(ck: Check) -> None:
         "dots) x 8 loaders (dict, choice, file system with and without ext, four caching ones, two with a namespace key) x alias or "
         "not (exhaustive); broad: 63 templates covering every registered tag x 9 data sets x 20 environment configurations (all "
         "feature flags, tolerance, undefined types, autoescape, every resource limit), render / analyze / get_template through both "
-        "APIs; paired tags: include (2 names x 6 bound variables x alias x 6 keyword-argument sets incl. arguments that shadow the bound "
+        "APIs; operators: 10 boolean operators x 19x19 heterogeneous operand pairs (nil, bools, ints, floats, strings, lists, dicts) x 6 "
+        "forms (if, unless, elsif, not, parenthesised, ternary) through both APIs (if and ternary exhaustive, the others one third in the quick tier); paired tags: include (2 names x 6 bound variables x alias x 6 keyword-argument sets incl. arguments that shadow the bound "
         "variable or read each other x 4 partial bodies x 5 loop-limit / nesting scenes), render (with / for, same axes) and call (3 "
         "signatures x 3 positional x 4 keyword sets x 3 bodies x 5 scenes), each run through both APIs with a recording mapping that "
         "logs every global lookup in order (sampled in the quick tier, exhaustive in the thorough tier).  Non-trivial = the case "
@@ -356,6 +357,7 @@ def run(ck: Check) -> None:
     _elsif(ck)
     _loaders(ck)
     _broad(ck)
+    _operators(ck)
     _tags(ck)
     _kwargs_family(ck)
     _pairs2.run_inherit(ck)
@@ -586,6 +588,57 @@ def _broad(ck: Check) -> None:
         ck.violation("correspondence", "c01-tag-coverage", f"registered tags never rendered by the pool: {missing}",
                      {"type": "coverage", "missing": missing, "broken": "the broad generator no longer covers every registered tag"},
                      no_input=True)
+
+
+# ------------------------------------------------------------------------------------------------ operators
+# Every boolean operator over heterogeneous operand pairs through both APIs (seed C01-I: GeExpression.evaluate_async
+# rewritten as `not _lt(...)` differs from the sync copy only on bool / nil / list operands).  Operands are render
+# data (l, r) and, for the left side, also literals; the forms cover if / unless / elsif / the ternary output form.
+OP_VALUES = [None, True, False, 0, 1, 1.0, 2, -1, 2.5, "", "a", "b", "1", [], [1], [1, 2], ["a"], {}, {"a": 1}]
+OP_OPERATORS = ["==", "!=", "<>", "<", ">", "<=", ">=", "contains", "and", "or"]
+OP_FORMS = [
+    ("if", "{{% if l {op} r %}}yes{{% else %}}no{{% endif %}}"),
+    ("unless", "{{% unless l {op} r %}}yes{{% else %}}no{{% endunless %}}"),
+    ("elsif", "{{% if nosuch %}}x{{% elsif l {op} r %}}yes{{% else %}}no{{% endif %}}"),
+    ("not", "{{% if not l {op} r %}}yes{{% else %}}no{{% endif %}}"),
+    ("group", "{{% if (l {op} r) and true %}}yes{{% else %}}no{{% endif %}}"),
+    ("ternary", "{{{{ 'yes' if l {op} r else 'no' }}}}"),
+]
+
+
+def _operators(ck: Check) -> None:
+    import warnings
+
+    reported = {}
+    n = 0
+    for cname, cfg in (("default", {}), ("extra", {"logical_not_operator": True, "logical_parentheses": True, "ternary_expressions": True})):
+        env = make_env(cfg)
+        for fname, form in OP_FORMS:
+            for op in OP_OPERATORS:
+                src = form.format(op=op)
+                with warnings.catch_warnings():
+                    warnings.simplefilter("ignore")
+                    pt = outcome(lambda: env.from_string(src))
+                if pt[0] == "err":
+                    ck.count(f"operators.parse-error.{cname}.{fname}")
+                    continue
+                t = pt[1]
+                for li, lv in enumerate(OP_VALUES):
+                    for ri, rv in enumerate(OP_VALUES):
+                        if ck.quick and fname not in ("if", "ternary") and (li + 2 * ri) % 3:
+                            continue
+                        s, a = both(t, {"l": lv, "r": rv})
+                        n += 1
+                        ck.note_case(("operators", cname, fname, op, li, ri))
+                        ck.count(f"operators.{op}")
+                        if s != a:
+                            sig = f"operator:{op}:{fname}"
+                            reported[sig] = reported.get(sig, 0) + 1
+                            if reported[sig] <= 1:
+                                ck.violation("impl-violation", sig,
+                                             f"configuration {cname}, {src!r} with l={lv!r}, r={rv!r}: render gives {s}, render_async gives {a}",
+                                             {"type": "operator", "config": cname, "template": src, "l": li, "r": ri})
+    ck.extra["operator_renders_compared"] = n
 
 
 # ================================================================================================ paired tags
@@ -1044,6 +1097,14 @@ def replay(data) -> int:
                 s = outcome(lambda: P.analysis_of(t.analyze()))
                 a = outcome(lambda: P.analysis_of(run_async(t.analyze_async())))
         print(src, "sync:", s, "async:", a)
+        bad = s != a
+    elif typ == "operator":
+        cfg = {} if case["config"] == "default" else {"logical_not_operator": True, "logical_parentheses": True, "ternary_expressions": True}
+        with warnings.catch_warnings():
+            warnings.simplefilter("ignore")
+            t = make_env(cfg).from_string(case["template"])
+        s, a = both(t, {"l": OP_VALUES[case["l"]], "r": OP_VALUES[case["r"]]})
+        print(case["template"], OP_VALUES[case["l"]], OP_VALUES[case["r"]], "sync:", s, "async:", a)
         bad = s != a
     elif typ == "tags":
         bad = replay_tags(case)
